@@ -7,7 +7,6 @@ Driver of `First()` over a projection with a lazy value (`Gen/FirstLazy.lean`): 
 Run: lake env lean --run FaxVerif/Gen/FirstLazyDriver.lean
 -/
 import FaxVerif.Cpp.Json
-import FaxVerif.Cpp.Check
 import FaxVerif.Gen.Render
 import FaxVerif.Gen.FirstLazy
 open Lean FaxVerif.Cpp FaxVerif.Linq FaxVerif.Gen
@@ -66,8 +65,7 @@ def handleFirstL (j : Json) : Except String Json := do
     ("tokens", Json.arr (P.tokens.map fun t => Json.mkObj [("token", t.1), ("type", t.2.1), ("bank", t.2.2)]).toArray),
     ("tree", P.tree),
     ("exec", Json.arr execs.toArray), ("denote", Json.arr dens.toArray),
-    ("wt", Json.bool (wtFirstL c v)),
-    ("wf", Json.bool (WellFormed P)), ("eventlocal", Json.bool (EventLocal P))])
+    ("wt", Json.bool (wtFirstL c v))])
 
 def handleF (line : String) : String :=
   match Json.parse line with
